@@ -48,6 +48,9 @@ FILE_POOL = [
     "tags",
     "sub/tags",
     "__pycache__/m.pyc",
+    # editor-style backups next to the files they belong to (names signac itself uses for ITS temporaries)
+    "f.txt~",
+    "sub/h.txt~",
 ]
 PROJECT_ENTRIES = ("Project.sync", "sync_projects")
 JOB_ENTRIES = ("Job.sync", "sync_jobs")
@@ -725,8 +728,12 @@ def expected_classes(plan, pre_src, pre_dst):
     return cl
 
 
+_PAYLOAD_BACKUPS = tuple("/" + n for n in FILE_POOL if n.endswith("~"))
+
+
 def leftovers(snapshot):
-    return sorted(k for k in snapshot if k.endswith("~") or ".tmp" in os.path.basename(k) or os.path.basename(k).startswith(".tmp"))
+    """Backup / temporary names in a snapshot -- except the users' own files of the pool that merely look like one."""
+    return sorted(k for k in snapshot if (k.endswith("~") and not k.endswith(_PAYLOAD_BACKUPS)) or ".tmp" in os.path.basename(k) or os.path.basename(k).startswith(".tmp"))
 
 
 # ---------------------------------------------------------------------------
